@@ -187,7 +187,7 @@ func resolveRoles(w *World) *Roles {
 			}
 		}
 	})
-	if ro.Count == nil {
+	if ro.Count == nil && ro.inlinedCounter() == nil {
 		ro.fail("counting function (callee compared with Concurrency in %s) not found", FuncName(ro.Admit))
 	}
 	// running predicate: method of *PipelineJob returning bool that reads Start, Completed, Canceled
@@ -205,9 +205,14 @@ func resolveRoles(w *World) *Roles {
 			}
 		}
 	}
-	// … and, among several such predicates, the one the counting function asks
-	if ro.Count != nil {
-		allInstrs(ro.Count, func(in ssa.Instruction) {
+	// … and, among several such predicates, the one the counting function (or an inlined counting loop) asks
+	if cf := func() *ssa.Function {
+		if ro.Count != nil {
+			return ro.Count
+		}
+		return ro.Admit
+	}(); cf != nil {
+		allInstrs(cf, func(in ssa.Instruction) {
 			if c, ok := in.(*ssa.Call); ok {
 				if f := c.Call.StaticCallee(); f != nil && f.Signature.Recv() != nil && namedOf(f.Signature.Recv().Type()) != nil && namedOf(f.Signature.Recv().Type()).Obj() == jobT.Obj() &&
 					f.Signature.Params().Len() == 0 && f.Signature.Results().Len() == 1 && f.Signature.Results().At(0).Type().String() == "bool" {
